@@ -1569,6 +1569,12 @@ func (r *run) applyWrite(ts *tranState, in Instr, op *logOp, off uint64) bool {
 			}
 		}
 	}
+	// (a refusal raised inside a cascade aborts the transaction, and an abort
+	// is asynchronous: in async programs wait until the checker has processed
+	// it before asking whether the transaction is still alive)
+	if r.prog != nil && r.prog.Async {
+		r.db.Final()
+	}
 	if f := ts.ut.VerifFailure(); f != "" || isTranEnded(err) {
 		if f == "" {
 			f = err
